@@ -129,8 +129,19 @@ def split_of(trace):
     return 1 if any(l == "P 1" for l in trace[:3]) else 0
 
 
+def sfix_of(trace):
+    """which failure branch of ThreadPool::run does the library have?  repaired (fixes/future/0006: lock, --_threadCount, unlock: the
+    creator reaches a scheduling point right after the refused creation) = 1, original (returns from run() at once) = 0; decided from the
+    behaviour seen in the trace, not from the source text"""
+    for i, l in enumerate(trace):
+        if " create-failed " in l and l.startswith("E "):
+            nxt = trace[i + 1] if i + 1 < len(trace) else ""
+            return 0 if nxt.startswith("E " + l.split()[1] + " started ") else 1
+    return 0
+
+
 def driver_lines(scn, trace, repaired):
-    out = [scn.model_cfg(repaired).replace(" rep=", f" hooks={hooks_of(trace)} split={split_of(trace)} rep=", 1)]
+    out = [scn.model_cfg(repaired).replace(" rep=", f" hooks={hooks_of(trace)} split={split_of(trace)} sfix={sfix_of(trace)} rep=", 1)]
     for l in trace:
         if l.startswith("S "):
             out.append("S " + l.split()[1])
@@ -383,6 +394,7 @@ def summarize(scn, req, trace, mo, want_enabled):
     r["limit"] = limit_hit[0] if limit_hit else None
     r["cf"] = scn.cf
     r["create_failed"] = sum(1 for l in trace if " create-failed " in l)
+    r["sfix"] = sfix_of(trace)
     return r
 
 
